@@ -126,6 +126,19 @@ pub fn check_ring(run: &mut Run, c: MCell, segments: Option<i32>, closed: bool, 
             Err(e) => run.violation("C11.ok", case(), format!("cell_to_boundary(segments=1) failed: {e}")),
         }
     }
+    // no options at all = closed ring with the default subdivision
+    if segments.is_none() && closed {
+        match flatten(guard(|| a5::cell_to_boundary(id, None))) {
+            Ok(r2) => {
+                let same = r2.len() == ring.len() && r2.iter().zip(ring.iter()).all(|(a, b)| a.longitude().to_bits() == b.longitude().to_bits() && a.latitude().to_bits() == b.latitude().to_bits());
+                if !same {
+                    run.violation("C11.default_options", case(), format!("cell_to_boundary(c, None) ({} points) differs from the explicit default options ({} points)", r2.len(), ring.len()));
+                }
+                run.count("rings_with_no_options_at_all");
+            }
+            Err(e) => run.violation("C11.ok", case(), format!("cell_to_boundary(c, None) failed: {e}")),
+        }
+    }
     if n >= 2 || class != "exhaustive" {
         run.nontrivial(mix(mix(id, n as u64), closed as u64));
     }
